@@ -557,6 +557,7 @@ func (w *wd) honestSpec(qm consensustypes.QueuedSignedMessageI, vs *valsetT, nSi
 	case *evmtypes.Message_UploadSmartContract:
 		x := a.UploadSmartContract
 		s.Raw = append(append([]byte{}, x.Bytecode...), x.ConstructorInput...)
+		s.Split = len(x.Bytecode)
 	}
 	return s, nil
 }
